@@ -7,6 +7,9 @@ Open Scope N_scope.
 (* flush.go: patternFlushWriter.Write looks for the pattern inside the write and across the write boundary *)
 Lemma ob_flush_checks_straddle : flush_straddle_check = true.
 Proof. vm_compute. reflexivity. Qed.
+(* patternFlushWriter.Write writes to the buffer first and flushes afterwards *)
+Lemma ob_flush_after_write : flush_after_write = true.
+Proof. reflexivity. Qed.
 Lemma ob_flush_checks_contains : flush_contains_check = true.
 Proof. vm_compute. reflexivity. Qed.
 
